@@ -1225,6 +1225,26 @@ def run(ctx):
     seen = set()
     for c in cases:
         seen.update(b"".join(c["syms"]))
+    missing = [b for b in range(256) if b not in FORBIDDEN_NAME_BYTES and b not in seen]
+    if missing:      # a name of the sweep was overwritten by a duplicate: one more case with the bytes not seen yet
+        syms = [b"s" + bytes(missing[k:k + 6]) for k in range(0, len(missing), 6)]
+        recs, t = [], 1000
+        for k in range(len(syms)):
+            recs.append((100, True, k, t))
+            t += 11
+        for k in reversed(range(len(syms))):
+            recs.append((100, False, k, t))
+            t += 13
+        c = {"tasks": [(100, 100, None)], "syms": syms, "recs": recs, "sample": 7, "exe": "prog"}
+        try:
+            p = run_case(objdir, c, d)
+            cases.append(c)
+            parsed.append(p)
+            ctx.case(key=("dir", tuple(c["syms"]), tuple(c["recs"])), tags=tags_of(c) + ["name:remaining-bytes"], size=len(recs))
+            seen.update(b"".join(syms))
+        except ParseError as e:
+            ctx.violation("an export of a well-formed trace could not be parsed back: %s" % e,
+                          {"kind": "dir", "case": case_json(c)}, True)
     ctx.extra["name_byte_values_covered"] = len(seen)
     res = evaluate_cases(ctx, cases, parsed, flame_fixed=flame_fixed)
     verdict(ctx, cases, parsed, res, flame_fixed)
